@@ -34,7 +34,9 @@ package lexer
 //@   terminates
 //@   requires l != nil && wfr(l.reader) && H0(l.reader)
 //@   ensures wfr(l.reader) && sameInput(l.reader) && H0(l.reader) && peeked(l.reader)
+//@   ensures len(result.buf) >= 1
 //@   loop 0 invariant wfr(l.reader) && sameInput(l.reader) && H0(l.reader) && M(l.reader) <= old(M(l.reader))
+//@   loop 0 invariant len(buf.buf) >= 1
 //@   loop 0 decreases M(l.reader)
 
 //@ func (*ti/lexer.Lexer).lexToNotIdentifierTokenEat
@@ -42,7 +44,9 @@ package lexer
 //@   terminates
 //@   requires l != nil && wfr(l.reader) && H0(l.reader)
 //@   ensures wfr(l.reader) && sameInput(l.reader) && H0(l.reader) && peeked(l.reader)
+//@   ensures len(result.buf) >= 1
 //@   loop 0 invariant wfr(l.reader) && sameInput(l.reader) && H0(l.reader) && M(l.reader) <= old(M(l.reader))
+//@   loop 0 invariant len(buf.buf) >= 1
 //@   loop 0 decreases M(l.reader)
 
 //@ func (*ti/lexer.Lexer).lexHexDigits
@@ -50,7 +54,9 @@ package lexer
 //@   terminates
 //@   requires l != nil && wfr(l.reader) && H0(l.reader)
 //@   ensures wfr(l.reader) && sameInput(l.reader) && H0(l.reader) && peeked(l.reader)
+//@   ensures len(result.buf) >= 1
 //@   loop 0 invariant wfr(l.reader) && sameInput(l.reader) && H0(l.reader) && M(l.reader) <= old(M(l.reader))
+//@   loop 0 invariant len(buf.buf) >= 1
 //@   loop 0 decreases M(l.reader)
 
 //@ func (*ti/lexer.Lexer).skipLineComment
@@ -73,6 +79,11 @@ package lexer
 //@ # reserved words map to parser token kinds: every value stored in `reserved` is the rune NIL
 //@ spec reservedOK() = forall(k, "string", has(reserved, k) ==> typeis(reserved[k], "int32") && unboxint(reserved[k]) == base.NIL)
 
+//@ func ti/lexer.Intern
+//@   safe
+//@   requires tblOK()
+//@   ensures tblOK() && result.name == name
+
 //@ # ---- lexDigit: entered with a digit pushed back; consumes at least that digit ----
 //@ func (*ti/lexer.Lexer).lexDigit
 //@   safe
@@ -89,11 +100,13 @@ package lexer
 //@   safe
 //@   terminates
 //@   requires l != nil && wfr(l.reader) && H0(l.reader) && l.reader.ungetFlg && l.reader.char != 0 && isIdentifierChar(l.reader.char)
-//@   requires reservedOK() && reserved != nil && tbl != nil
+//@   requires reservedOK() && reserved != nil && tblOK()
 //@   ensures wfr(l.reader) && sameInput(l.reader) && H0(l.reader) && M(l.reader) < old(M(l.reader))
 //@   ensures (l.tok == base.UNKNOWN || l.tok == base.NIL) && typeis(l.val, "ti/lexer.Identifier")
+//@   ensures len(unbox(l.val, "ti/lexer.Identifier").name) > 0 && tblOK() && reservedOK()
 //@   loop 0 invariant wfr(l.reader) && sameInput(l.reader) && H0(l.reader)
 //@   loop 0 invariant ite(l.reader.ungetFlg, M(l.reader) == old(M(l.reader)) && l.reader.char == old(l.reader.char), M(l.reader) <= old(M(l.reader)) - 2)
+//@   loop 0 invariant !l.reader.ungetFlg ==> len(buf.buf) >= 1
 //@   loop 0 decreases M(l.reader)
 //@   witness dec:loop0#0 "f x:\"abc"
 
@@ -101,17 +114,20 @@ package lexer
 //@ # property ("each token the parser builds has a well-defined kind"), not from the lexer.
 //@ spec parserKind(k) = k == base.INT || k == base.FLOAT || k == base.STRING || k == base.NIL || k == base.UNKNOWN
 //@     || k == ';' || k == '^' || k == '+' || k == '-' || k == '/' || k == '*' || k == '>' || k == '<' || k == '(' || k == ')'
-//@     || k == ',' || k == '\n' || k == '{' || k == '}' || k == '[' || k == ']' || k == '!' || k == '|' || k == '=' || k == '.'
+//@     || k == ',' || k == '\n' || k == '{' || k == '}' || k == '[' || k == ']' || k == '!' || k == '|' || k == '=' || k == '.' || k == '`'
 //@ # the dynamic type of the token value matches the kind (parser.Read asserts these types)
 //@ spec valueMatches(l) = (l.tok == base.INT ==> typeis(l.val, "int64")) && (l.tok == base.FLOAT ==> typeis(l.val, "float64"))
-//@     && (l.tok == base.STRING ==> typeis(l.val, "string")) && (l.tok == base.UNKNOWN ==> typeis(l.val, "ti/lexer.Identifier"))
+//@     && (l.tok == base.STRING ==> typeis(l.val, "string"))
+//@     && (l.tok == base.UNKNOWN ==> typeis(l.val, "ti/lexer.Identifier") && len(unbox(l.val, "ti/lexer.Identifier").name) > 0)
+//@ # the intern table maps every name to the identifier of that name
+//@ spec tblOK() = tbl != nil && forall(k, "string", has(tbl, k) ==> tbl[k].name == k)
 
 //@ func (*ti/lexer.Lexer).Advance
 //@   safe
 //@   terminates
-//@   requires wfA(l) && reservedOK() && reserved != nil && tbl != nil
+//@   requires wfA(l) && reservedOK() && reserved != nil && tblOK()
 //@   decreases M(l.reader)
-//@   ensures wfA(l) && sameInput(l.reader)
+//@   ensures wfA(l) && sameInput(l.reader) && reservedOK() && tblOK()
 //@   ensures[C02,C03] result ==> M(l.reader) < old(M(l.reader))
 //@   ensures[C02,C03] M(l.reader) <= old(M(l.reader)) + 1
 //@   ensures[C03] result ==> parserKind(l.tok)
